@@ -16,6 +16,18 @@ def theorems(pid):
     return re.findall(r'^Theorem\s+(\w+)', txt, flags=re.M)
 
 
+def conf_label(conf):
+    if conf.get('confirmed'):
+        return 'yes'
+    if not conf:
+        return '?'
+    if not conf.get('applies'):
+        return 'no longer applies (the code it changes was repaired since)'
+    if (conf.get('demo_patched') or '').startswith('PROPERTY HOLDS'):
+        return 'no longer a violation (the repaired code compensates)'
+    return 'the test suite catches it'
+
+
 def seeds():
     rows = []
     for d in sorted(glob.glob(os.path.join(VERIF, 'seeded', '*'))):
@@ -29,7 +41,7 @@ def seeds():
         res = json.load(open(os.path.join(d, 'result_quick.json'))) if os.path.exists(os.path.join(d, 'result_quick.json')) else {}
         first = json.load(open(os.path.join(d, 'first_result.json'))) if os.path.exists(os.path.join(d, 'first_result.json')) else None
         rows.append((sid, meta.get('summary', '')[:230].replace('|', '/').replace('\n', ' '), ', '.join(os.path.basename(f) for f in meta.get('files', []))[:60],
-                     'yes' if conf.get('confirmed') else 'tests now catch it' if conf.get('applies') else '?', 'caught' if res.get('detected') else 'MISSED' if res else 'not run',
+                     conf_label(conf), 'caught' if res.get('detected') else ('n/a' if conf and not conf.get('confirmed') else 'MISSED') if res else 'not run',
                      (res.get('last_line') or '')[:10], first))
     return rows
 
@@ -58,11 +70,12 @@ def main():
     rows = seeds()
     n = len(rows)
     conf = sum(1 for r in rows if r[3] == 'yes')
+    valid_caught = sum(1 for r in rows if r[3] == 'yes' and r[4] == 'caught')
     missed_first = sum(1 for r in rows if r[6] is not None and not r[6].get('detected'))
     caught = sum(1 for r in rows if r[4] == 'caught')
     out.append('')
     out.append('Summary: %d seeded changes, %d confirmed against the current tree (the others are caught by the existing test suite on the current tree or no longer apply); '
-               '%d were missed by the quick check as it stood when the seed was made; after strengthening %d of %d are caught by the quick check of their property.' % (n, conf, missed_first, caught, n))
+               '%d were missed by the quick check as it stood when the seed was made; after strengthening %d of the %d confirmed ones are caught by the quick check of their property.' % (n, conf, missed_first, valid_caught, conf))
     text = '\n'.join(out) + '\n'
     p = os.path.join(VERIF, 'DESIGN.md')
     s = open(p).read()
